@@ -3,11 +3,15 @@ From Coq Require Import List Bool.
 From KV.Wait Require Import Ir GenWait Model Explore Systems WaitLemmas.
 Import ListNotations.
 
-Lemma read_2_checked : forall a, let d := sys_n skel Reader 2 a in scheck d (n_inv Reader d) = true.
-Proof. intros []; vm_cast_no_check (eq_refl true). Qed.
 (* F4 repaired: with several readers data is never left unclaimed *)
 Lemma read_2_full_checked : forall a, let d := sys_n skel Reader 2 a in scheck d (fixed_n_inv d) = true.
 Proof. intros []; vm_cast_no_check (eq_refl true). Qed.
+(* n_inv Reader = [inv_ok; inv_close_wakes; inv_error_wakes] is a sub-bundle of fixed_n_inv: same exploration *)
+Lemma read_2_checked : forall a, let d := sys_n skel Reader 2 a in scheck d (n_inv Reader d) = true.
+Proof.
+  intros a d. apply (scheck_weaken d (fixed_n_inv d)); [|apply read_2_full_checked].
+  apply inv_and_subset. simpl; tauto.
+Qed.
 Lemma write_2_checked : forall a, let d := sys_n skel Writer 2 a in scheck d (n_inv Writer d) = true.
 Proof. intros []; vm_cast_no_check (eq_refl true). Qed.
 Lemma accept_2_checked : forall a, let d := sys_n skel Accepter 2 a in scheck d (n_inv Accepter d) = true.
